@@ -43,6 +43,10 @@ def check(model: Model, rep: Report, tier: str):
     cg = CallGraph(model)
     with rep.isolated():
         share_rule(rep, model, lambda m, r: h1(m, r, cg, Effects(m, cg)), "C10.T3", "the schedule under a changed duration configuration is recomputed: every writer of a duration setting invalidates the memoised start times (= C03.H1)")
+    from .common import instance_state_rule
+    with rep.isolated():
+        instance_state_rule(model, rep, "C10.T6", "a duration configuration belongs to its registry: the table of a duration registry is bound per instance, not a class-level "
+                            "container shared by all registries", keep=lambda c: c.module.relpath.endswith("registry_duration.py"))
     from .c03 import h5
     with rep.isolated():
         share_rule(rep, model, lambda m, r: h5(m, r, cg), "C10.T5", "memoised start times are keyed per link: unrolled repetitions and look-alike blocks never share an entry (= C03.H5)")
